@@ -13,46 +13,46 @@ NA = {
 
 # id -> (claimed?, technique, level text, level note)
 CHECKS = {
-    "C01": (True, "SSA constructor-agreement, aliasing/provenance and cursor-pairing rules (CTOR, CLAMP, RET-SELF, ALIAS, CURSOR-PAIR, PROV)",
-            "Necessary structural conditions of lossless tiling: the in-memory constructor initialises the same machine as the streaming one, Source aliases the caller's buffer through a capacity-clamped slice, every prefix cut of the buffer is paired with offset/line/index updates, and offset/line addends derive from unpaddedNullLength/lineCount. Does not decide range ordering or the arithmetic inside the helpers.",
+    "C01": (True, "SSA constructor-agreement, aliasing/provenance, cursor-pairing and buffer-ownership rules (CTOR, CLAMP, RET-SELF, ALIAS, CURSOR-PAIR, PROV through helper parameters, BUF-FORWARD, PAD-START, LINE-COMPLETE, LINECOUNT-STEP, WS-SPEC)",
+            "Necessary structural conditions of lossless tiling: the in-memory constructor initialises the same machine as the streaming one, Source aliases the caller's buffer through a capacity-clamped slice, every prefix cut of the buffer is paired with offset/line/index updates, offset/line addends derive from unpaddedNullLength/lineCount of the prefix cut (also through helper parameters), the buffer only moves forward or to a fresh allocation (so returned Source slices are never overwritten), padNulls examines only newly read bytes, lineCount's per-byte step (or closed form) counts LF, CR and CRLF once each, a line is complete only behind an LF, an available look-ahead byte or end of input, and no Unicode-white-space function is applied to document text. Does not decide range ordering or the arithmetic inside the helpers.",
             "go/types + go/ssa; field-based origin abstraction; helper arithmetic trusted"),
-    "C04": (True, "SSA latch/provenance proof that Parse's panic is unreachable, definite-divergence and reader-exit loop rules, finite-domain unreachability, lineParser typestate, child-arity backing",
-            "Structural parts of totality: Parse cannot reach panic(err) (latch + provenance), errors returned by Render/Format/NextBlock originate from the reader/writer, no loop has a state-preserving cycle (LOOP-D) or an end-of-input-blind reader cycle (LOOP-N), explicit unreachable-defaults are unreachable over finite domains, lineParser API state guards cannot fire from any block rule, positional child accesses are backed by producer guarantees. Implicit bounds/nil panics and progress-making loop termination are not decided.",
+    "C04": (True, "SSA latch/provenance proof that Parse's panic is unreachable (interprocedural latch dataflow), definite-divergence and reader-exit loop rules, relative-advance and index-guard rules, finite-domain unreachability, lineParser typestate, child-arity backing",
+            "Structural parts of totality: Parse cannot reach panic(err) (latch + provenance), errors returned by Render/Format/NextBlock originate from the reader/writer, no loop has a state-preserving cycle (LOOP-D) or an end-of-input-blind reader cycle (LOOP-N), hand-advanced scan indices only move relative to themselves (ADVANCE-REL), cursor and look-ahead reads are dominated by a bound on that index (INDEX-GUARD), explicit unreachable-defaults are unreachable over finite domains, lineParser API state guards cannot fire from any block rule, positional child accesses are backed by producer guarantees. Implicit bounds/nil panics and progress-making loop termination are not decided.",
             "go/ssa CFG and dominators; BSET finite-domain propagation; idempotent reader methods list"),
-    "C05": (True, "BSET containment matrix, constant-kind open-call audit, marker-first path rule, construction-sequence enumeration against the documented child grammar",
-            "Structural parts of the node grammar: lists contain only items and items occur only in lists, every item starts with a marker, reference definitions/links/images/autolinks are built with the documented child sequences on every construction path, leaf blocks receive only their verbatim leaf kinds, list/item delimiter agreement. Delimiter-stack dependent clauses (no unparsed left, no link in link) and numeric accessor ranges are not decided.",
+    "C05": (True, "BSET containment matrix, constant-kind open-call audit, marker-first path rule, construction-sequence enumeration against the documented child grammar (through constructor helpers), leaf-kind path conditioning, link-deactivation and unparsed-reuse rules",
+            "Structural parts of the node grammar: lists contain only items and items occur only in lists, every item starts with a marker, reference definitions/links/images/autolinks are built with the documented child sequences on every construction path, leaf blocks receive only their verbatim leaf kinds (every leaf addLineText creates, per container kind), list/item delimiter agreement; necessary conditions of 'no link in link' (every earlier opener below the finished link is deactivated, for all flag values) and of 'no unparsed node remains' (a line-list node is attached only where it cannot be Unparsed). The full delimiter-stack dependent clauses and numeric accessor ranges are not decided.",
             "go/ssa; grammar tables transcribed from the kinds' doc comments"),
-    "C07": (True, "HTML lexer-state typestate + escape taint over every append to the render buffer (HTX-L, HTX-T, HTX-RAW, HTX-EMIT, ESC-SET, VOCAB)",
-            "Every byte appended to the output buffer is part of a constant skeleton the HTML lexer accepts as quoted start/end tags with constant names, or dynamic text that passed a sanitiser adequate for its lexical context, or one of two verbatim leaf kinds restricted by the parser (assumption). Holds for all inputs and configurations because the state set carries all configurations.",
+    "C07": (True, "HTML lexer-state typestate + escape taint over every append to the render buffer (HTX-L, HTX-T, HTX-RAW, ESC-SET per byte value, VOCAB, CHARREF-ALPHABET, WALK-WIRING)",
+            "Every byte appended to the output buffer is part of a constant skeleton the HTML lexer accepts as quoted start/end tags with constant names, or dynamic text that passed a sanitiser adequate for its lexical context, or one of two verbatim leaf kinds (the character-reference recogniser's alphabet is decided, the soft-break span is assumed); the Walk callbacks pass the emitters' verdicts on unchanged, so every opened element is closed. Holds for all inputs and configurations because the state set carries all configurations.",
             "html.EscapeString and escapeHTML's copy arithmetic trusted as sanitisers; parser invariants on character-reference and soft-break spans assumed"),
-    "C08": (True, "SSA dominance rules on the reader loop: error latch, no read after error, sticky error, read count used unconditionally, same machine, two-pass order",
-            "Necessary conditions of streaming≡in-memory: the reader is never consulted after it reported an error/EOF, the stored error is never replaced and is what NextBlock returns, bytes returned together with an error are kept, Parse uses NextBlock as its only splitter with the same line-counter initialisation, Extract precedes Rewrite. Tree equality under arbitrary chunking is arithmetic over buffer contents and is not decided.",
+    "C08": (True, "SSA dominance rules on the reader loop: error latch (interprocedural), no read after error, sticky error, read count and error kept, line completeness, search start, buffer ownership, padding start, same machine, two-pass order",
+            "Necessary conditions of streaming≡in-memory: the reader is never consulted after it reported an error/EOF, the stored error is never replaced and is what NextBlock returns, bytes and errors returned together are both kept, a line is complete only behind LF / look-ahead / end of input, the line-ending search never starts behind a pending CR, the buffer never moves back into memory of returned blocks, padNulls looks only at new bytes, Parse uses NextBlock as its only splitter with the same line-counter initialisation, Extract precedes Rewrite. Tree equality under arbitrary chunking is arithmetic over buffer contents and is not decided.",
             "go/ssa dominators; helper arithmetic trusted"),
     "C10": (True, "per-kind outcome tables of the renderer callbacks (HTX-KIND/PAIR) against the documented mapping, text provenance, write-effect analysis of the read path, block-join provenance",
             "Structural parts of canonical serialisation: for every node kind and configuration the sequence of tags/constants/dynamic classes emitted equals the documented mapping and pre/post are paired; dynamic text comes from the visited node's accessors and is escaped; rendering writes only call-local memory and has no nondeterminism source; Render joins AppendBlock results with the blank-line separator in slice order. Byte-for-byte equality with an independent serialiser is not decided.",
             "oracle tables transcribed from doc comments and the CommonMark HTML mapping; EFF external-callee table"),
-    "C11": (True, "data-dependence rule on the opener-search cache key (EMPH-K) and saved-index staleness path rule (EMPH-S)",
-            "Two necessary conditions for the openers_bottom optimisation to be behaviour-preserving: the cache key depends on every closer field the match predicate reads, and saved stack indices are re-based on every path that deletes stack entries inside the closer loop. The algorithm's result itself is value-level and not decided.",
-            "go/ssa def-use; the match predicate's read set is derived from its SSA"),
+    "C11": (True, "exact finite-domain equivalence check of the opener-search cache key against the match predicate (EMPH-KX) and an invariant dataflow for saved-index staleness (EMPH-S)",
+            "Two necessary conditions for the openers_bottom optimisation to be behaviour-preserving: closers that share a search-bound slot are treated identically by the match predicate for every opener (exhaustive over type x tested flag bits x run length mod 3), and the invariant 'every saved bound <= V' is maintained across every deletion from the stack before any bound is read. The algorithm's result itself is value-level and not decided.",
+            "go/ssa; both functions are evaluated over the finite domain on the SSA graph after checking run lengths are only used modulo 3"),
     "C12": (True, "SSA dominance/provenance rules: first-wins guard, match-before-reference, single normaliser, two-pass order, document-order traversal",
             "Structural parts: Extract never overwrites an existing key, every node made a reference is dominated by a successful MatchReference of the same key, every stored key/ref is produced by the one normaliser, definitions are extracted before inlines are rewritten, containers are descended in document order. The normaliser's own Unicode semantics and label recognition are not decided.",
             "go/ssa dominators and def-use"),
-    "C14": (True, "typed-AST decision symmetry rule for LF/CR (SYM) with two structurally recognised exemptions",
+    "C14": (True, "typed-AST decision symmetry rule for LF/CR (SYM) with two structurally recognised exemptions, and arm-shadowing enumeration (SYM-DEAD)",
             "Necessary condition of line-ending independence: every decision in package commonmark that classifies an input byte against LF classifies the same operand against CR (directly or via a predicate whose BSET accept set has both), except CRLF look-ahead and IndexAny-derived indices. Equivalence of the two arms, padding and final-newline clauses are not decided.",
             "go/types typed syntax; BSET accept sets of helper predicates"),
-    "C15": (True, "exact accept sets of byte/rune classifiers by finite-domain set propagation over SSA (BSET), compared with sets transcribed from CommonMark 0.30 / RFC 3986",
-            "For each of the 9 byte/rune classifiers and 2 byte maps the exact accept set / mapping over all 256 bytes resp. all 1,114,112 code points equals the spec's definition; NormalizeURI's constant safe set is within RFC 3986 reserved ∪ unreserved and every byte it writes is '%', a urlHexDigit result or a rune guarded by the safe-set test. The line recognisers, e-mail recogniser and URI idempotence are loop automata and are not decided.",
+    "C15": (True, "exact accept sets of byte/rune classifiers by finite-domain set propagation over SSA (BSET), compared with sets transcribed from CommonMark 0.30 / RFC 3986; numeric limits of the recognisers (SPEC-BOUNDS, loop counters by iteration count); full-span scans (SPAN-SCAN)",
+            "For each of the 9 byte/rune classifiers and 2 byte maps the exact accept set / mapping over all 256 bytes resp. all 1,114,112 code points equals the spec's definition; NormalizeURI's constant safe set is within RFC 3986 reserved ∪ unreserved and every byte it writes is '%', a urlHexDigit result or a rune guarded by the safe-set test. The numeric limits of the recognisers equal the specification's numbers and span-validating loops cover the whole span; the recognisers' languages, the e-mail recogniser and URI idempotence are loop automata and are not decided.",
             "go/ssa; Unicode tables of the Go standard library; oracle sets transcribed in checker/c15.go"),
-    "C17": (True, "who-may-emit-markup rule over all appends (HTX-EMIT), filterRaw provenance, lower-casing and nil-filter dominance rules, BSET superset check of the GFM predicate",
-            "Emitter-side clauses: every tag the renderer itself writes goes through the FilterTag-consulting emitters, filterRaw appends only sub-slices of its input or the constant &lt;, FilterTag arguments are lower-cased names, FilterTagGFM rejects at least the nine GFM raw-text elements, and no filtering branch is taken with a nil predicate. Agreement of filterRaw's scanner with the WHATWG tokenizer is not decided.",
+    "C17": (True, "who-may-emit-markup rule over all appends (HTX-EMIT), filterRaw provenance over its helper family, transition-table extraction of its skip states (FR-AUTOMATON), tag-open set and first-'>' jump target (FR-TAGSKIP), tag-name terminator set (TAGNAME-SET), lower-casing, transient-name and nil-filter rules, BSET superset check of the GFM predicate",
+            "Emitter-side clauses: every tag the renderer itself writes goes through the FilterTag-consulting emitters, filterRaw appends only sub-slices of its input or the constant &lt;, FilterTag arguments are lower-cased names, FilterTagGFM rejects at least the nine GFM raw-text elements, no filtering branch is taken with a nil predicate, and filterRaw's scanner never skips further than an HTML tokenizer would: skip states end at the tokenizer's construct ends, a jump over a tag starts only at a byte that opens markup and lands on the first '>', the measured tag name stops at every tokenizer terminator, and the lower-cased name is never kept. Equality of the two languages beyond that is not decided.",
             "go/ssa; atom table of golang.org/x/net/html/atom read as data"),
     "C18": (True, "eight SSA shape obligations on commonmark.Walk (W1–W8): child-function indirection, prune/abort edges, cursor coherence, post-frame ordering, traversal order",
             "Structural obligations each of which is necessary for the documented Walk contract: custom child functions used everywhere, prune path pushes nothing, abort path returns without further calls, child cursors carry the parent/index/nearest block used to fetch them, root cursor has index −1 and no parent, the post frame is pushed below the children, children are pushed in descending index and popped from the end. That these add up to exactly-once document order is an inductive argument not decided here.",
             "go/ssa form of Walk"),
-    "C19": (True, "whole-module write-effect / ownership analysis over SSA with a field-based heap abstraction (EFF-G, EFF-R, EFF-X, EFF-U, DET)",
-            "No instruction outside package initialisers writes package-level state; every write reachable from Render/AppendBlock/RenderHTML/Format/Walk and the exported accessors targets call-owned memory (fresh allocations, scratch-typed per-call state, the documented output parameter); external callees are stateless per table; no goroutine, channel, select, unsafe beyond the audited node conversions, or order-observable map iteration. Covers all interleavings at once because no shared writable location exists.",
+    "C19": (True, "whole-module write-effect / ownership analysis over SSA with a field-based heap abstraction (EFF-G, EFF-R, EFF-X, DET) and a tag-discipline rule for the unsafe node pointers (EFF-U)",
+            "No instruction outside package initialisers writes package-level state; every write reachable from Render/AppendBlock/RenderHTML/Format/Walk and the exported accessors targets call-owned memory (fresh allocations, scratch-typed per-call state, the documented output parameter); external callees are stateless per table; no goroutine, channel, select, unsafe beyond tag-guarded node pointers, or order-observable map iteration. Covers all interleavings at once because no shared writable location exists.",
             "Go memory/type safety; external callee table (DESIGN.md Appendix C); user callbacks are the caller's"),
-    "C20": (True, "SSA latch, write-guard and who-may-write rules on the format writer, result provenance, write-effect analysis",
+    "C20": (True, "interprocedural SSA latch dataflow with bool-correlated method summaries, write-guard and who-may-write rules on the format writer, result provenance, write-effect analysis",
             "Structural parts of the first sentence: the error field is a latch, every call reaching the underlying writer is guarded by it and stores its error, only the writer's own methods touch the underlying writer, Format returns the latched error, formatting writes only call-local memory and has no nondeterminism source. The round-trip sentence is behavioural and not decided.",
             "go/ssa dominators; EFF external-callee table"),
 }
